@@ -338,6 +338,8 @@ func (r Condition) IsEqual(o any) (err error) {
 				// use default assertion
 				err = r.condition.isEqual(s.condition)
 			}
+		} else {
+			err = errorf("Cannot perform equality assertion; bad input")
 		}
 	}
 
